@@ -181,6 +181,8 @@ def run_case(gen, idx, rng, tier):
     # mix
     from . import c08
     cfg, specs = c08.gen_case(rng, tier)
+    from ..apps import EXC_KINDS
+    cfg['exc_kind'] = rng.choice(EXC_KINDS)
     for spec in specs:
         # application callbacks that raise must not make the library signal twice either (the connection is cut and,
         # afterwards, closed explicitly)
